@@ -84,7 +84,7 @@ func main() {
 		fmt.Fprintln(os.Stderr, "unknown scenario", *name)
 		os.Exit(2)
 	}
-	cfg := vrt.Config{Horizon: *horizon, FreeSwitchAtBlock: *freeSwitch}
+	cfg := vrt.Config{Horizon: *horizon, FreeSwitchAtBlock: *freeSwitch, MaxTime: sc.MaxTime}
 	if *replay != "" {
 		var choices []int
 		for _, f := range strings.Split(*replay, ",") {
